@@ -504,6 +504,14 @@ func TestVerifC16Probes(t *testing.T) {
 			env.stop(5 * time.Second)
 		}
 	}
+	{ // isolation of data: two reads of different files in flight on one connection after a zero-byte end-of-file read
+		ok, valid, detail := vhReadAfterEOFProbe(8)
+		if !valid {
+			t.Fatalf("C16 read-after-EOF probe could not run: %s", detail)
+		}
+		out.Emit(map[string]interface{}{"kind": "probe", "name": "reads-after-eof-read", "answered": ok, "detail": detail,
+			"what": "after a zero-byte read at end of file, a read held in the backend and a second read of another file on the same connection: each must deliver its own file's bytes"})
+	}
 	{ // clone-with-attributes (Twalkgetattr, no names) held in Walk(nil) while a writer queues on the same node
 		ok := false
 		for try := 0; try < 3 && !ok; try++ {
